@@ -432,6 +432,157 @@ def parse_const(src, name):
     return int(m.group(1))
 
 
+def _squash(t):
+    t = re.sub(r"\s+", "", t)
+    return t.replace(",)", ")")
+
+
+def parse_payload_enum(src, name):
+    """pub enum X { A(T), B(U), ... } -> {A: T}"""
+    m = re.search(r"pub\s+enum\s+%s\s*\{" % re.escape(name), src)
+    if not m:
+        raise Unrecognised("enum %s not found" % name)
+    body, _ = block_after(src, m.start())
+    body = re.sub(r"#\[[^\]]*\]", "", body)
+    out = {}
+    for item in body.split(","):
+        item = item.strip()
+        if not item:
+            continue
+        mm = re.fullmatch(r"([A-Za-z0-9_]+)\(([A-Za-z0-9_<>]+)\)", item)
+        if not mm:
+            raise Unrecognised("enum %s: variant %r" % (name, item))
+        out[mm.group(1)] = mm.group(2)
+    return out
+
+
+DUR_UNITS = {"secs": 1, "millis": 1000, "micros": 1000000, "nanos": 1000000000}
+VTAGS = {"String": "str", "DataNumber": "num", "Float64": "f64", "Duration": "dur", "Ip4Addr": "ip4", "Ip6Addr": "ip6",
+         "MacAddr": "mac", "Vec": "vec", "ProtocolType": "proto", "Unknown": "unknown"}
+SCALAR_BYTES = {"u8": 1, "u16": 2, "u32": 4, "u64": 8, "u128": 16, "i32": 4, "f64": 8, "Ipv4Addr": 4, "Ipv6Addr": 16}
+
+
+def parse_value_arms(src):
+    """the arms of FieldValue::from_field_type as descriptors (lean/NetflowModel/Arms.lean: ValueArm)"""
+    body = find_impl(src, r"impl\s+FieldValue\s*\{")
+    m = re.search(r"pub\s+fn\s+from_field_type\s*\(", body)
+    if not m:
+        raise Unrecognised("FieldValue::from_field_type")
+    fn, _ = block_after(body, m.start())
+    sq = _squash(fn)
+    if not sq.startswith("let(remaining,field_value)=matchfield_type{") or not sq.endswith("};Ok((remaining,field_value))"):
+        raise Unrecognised("from_field_type: frame")
+    arms = []
+    for lhs, rhs in match_arms(fn, r"field_type"):
+        mm = re.fullmatch(r"FieldDataType::([A-Za-z0-9]+)", lhs)
+        if not mm or mm.group(1) not in FTYPES:
+            raise Unrecognised("from_field_type pattern %r" % lhs)
+        ty = FTYPES[mm.group(1)]
+        r = _squash(rhs)
+        a = re.fullmatch(r"\{let\(i,data_number\)=DataNumber::parse\(remaining,field_length,(true|false)\)\?;\(i,FieldValue::DataNumber\(data_number\)\)\}", r)
+        if a:
+            arms.append((ty, ".number %s" % a.group(1))); continue
+        if r == "{let(i,taken)=take(field_length)(remaining)?;(i,FieldValue::String(String::from_utf8_lossy(taken).to_string()))}":
+            arms.append((ty, ".text")); continue
+        a = re.fullmatch(r"\{let\(i,taken\)=be_(u32|u128)\(remaining\)\?;letip_addr=Ipv(4|6)Addr::from\(taken\);\(i,FieldValue::Ip(4|6)Addr\(ip_addr\)\)\}", r)
+        if a and a.group(2) == a.group(3) and {"4": "u32", "6": "u128"}[a.group(2)] == a.group(1):
+            arms.append((ty, ".ipv%s %d" % (a.group(2), SCALAR_BYTES[a.group(1)]))); continue
+        a = re.fullmatch(r"\{let\(i,taken\)=take\((\d+)_usize\)\(remaining\)\?;lettaken:&\[u8;(\d+)\]=taken\.try_into\(\)\.map_err\(\|_\|NomErr::Error\(NomError::new\(remaining,ErrorKind::Fail\)\)\)\?;"
+                         r"letmac_addr=mac_address::MacAddress::from\(\*taken\)\.to_string\(\);\(i,FieldValue::MacAddr\(mac_addr\)\)\}", r)
+        if a and a.group(1) == a.group(2):
+            arms.append((ty, ".mac %s" % a.group(1))); continue
+        a = re.fullmatch(r"\{let\(i,data_number\)=DataNumber::parse\(remaining,field_length,false\)\?;"
+                         r"\(i,FieldValue::Duration\(Duration::from_(secs|millis|micros|nanos)\(<DataNumberasInto<usize>>::into\(data_number\)asu64\)\)\)\}", r)
+        if a:
+            arms.append((ty, ".duration %d" % DUR_UNITS[a.group(1)])); continue
+        if r == "{let(i,protocol)=ProtocolTypes::parse(remaining)?;(i,FieldValue::ProtocolType(protocol))}":
+            arms.append((ty, ".protocol")); continue
+        if r == "{let(i,f)=f64::parse(remaining)?;(i,FieldValue::Float64(f))}":
+            arms.append((ty, ".float 8")); continue
+        if r == "{let(i,taken)=take(field_length)(remaining)?;(i,FieldValue::Vec(taken.to_vec()))}":
+            arms.append((ty, ".bytes")); continue
+        if r == "parse_unknown_fields(remaining,field_length)?":
+            on = re.search(r'#\[cfg\(feature\s*=\s*"parse_unknown_fields"\)\]\s*fn\s+parse_unknown_fields\s*\(', src)
+            off = re.search(r'#\[cfg\(not\(feature\s*=\s*"parse_unknown_fields"\)\)\]\s*fn\s+parse_unknown_fields\s*\(', src)
+            if not on or not off:
+                raise Unrecognised("parse_unknown_fields: cfg pair")
+            b_on = _squash(block_after(src, on.end())[0])
+            b_off = _squash(block_after(src, off.end())[0])
+            if b_on != "let(i,taken)=take(field_length)(remaining)?;Ok((i,FieldValue::Vec(taken.to_vec())))":
+                raise Unrecognised("parse_unknown_fields (feature on): %r" % b_on)
+            if b_off != "Err(NomErr::Error(NomError::new(remaining,ErrorKind::Fail)))":
+                raise Unrecognised("parse_unknown_fields (feature off): %r" % b_off)
+            arms.append((ty, ".unknownGated")); continue
+        raise Unrecognised("from_field_type arm %s: %r" % (lhs, r[:120]))
+    if len(set(t for t, _ in arms)) != len(arms):
+        raise Unrecognised("from_field_type: duplicate arm")
+    return arms
+
+
+def parse_export_arms(src):
+    """the arms of FieldValue::to_be_bytes as descriptors (ExportArm)"""
+    payload = parse_payload_enum(src, "FieldValue")
+    body = find_impl(src, r"impl\s+FieldValue\s*\{")
+    m = re.search(r"pub\s+fn\s+to_be_bytes\s*\(", body)
+    if not m:
+        raise Unrecognised("FieldValue::to_be_bytes")
+    fn, _ = block_after(body, m.start())
+    arms = []
+    for lhs, rhs in match_arms(fn, r"self"):
+        mm = re.fullmatch(r"FieldValue::([A-Za-z0-9]+)\(([a-z_]+)\)", lhs)
+        if not mm or mm.group(1) not in VTAGS:
+            raise Unrecognised("to_be_bytes pattern %r" % lhs)
+        var, x, tag = mm.group(1), mm.group(2), VTAGS[mm.group(1)]
+        r = _squash(rhs)
+        if r in ("Ok(%s.as_bytes().to_vec())" % x, "Ok(%s.clone())" % x) and payload.get(var) in ("String", "Vec<u8>"):
+            arms.append((tag, ".held")); continue
+        if r == "%s.to_be_bytes()" % x and payload.get(var) == "DataNumber":
+            arms.append((tag, ".number")); continue
+        if r in ("Ok(%s.to_be_bytes().to_vec())" % x, "Ok(%s.octets().to_vec())" % x) and payload.get(var) in SCALAR_BYTES:
+            arms.append((tag, ".be %d" % SCALAR_BYTES[payload[var]])); continue
+        if r == "Ok((u32::try_from(%s.as_secs()).map_err(std::io::Error::other)?).to_be_bytes().to_vec())" % x and payload.get(var) == "Duration":
+            arms.append((tag, ".secsU32")); continue
+        if r == "Ok(u8::from(*%s).to_be_bytes().to_vec())" % x and payload.get(var) == "ProtocolTypes":
+            arms.append((tag, ".protoU8")); continue
+        raise Unrecognised("to_be_bytes arm %s: %r" % (lhs, r[:120]))
+    if len(set(t for t, _ in arms)) != len(arms):
+        raise Unrecognised("to_be_bytes: duplicate arm")
+    return arms
+
+
+def parse_dn_export_arms(src):
+    """DataNumber::to_be_bytes arms (DnExportArm) and the From<DataNumber> for usize casts"""
+    payload = parse_payload_enum(src, "DataNumber")
+    body = find_impl(src, r"impl\s+DataNumber\s*\{")
+    m = re.search(r"(?:pub\s+)?fn\s+to_be_bytes\s*\(", body)
+    if not m:
+        raise Unrecognised("DataNumber::to_be_bytes")
+    fn, _ = block_after(body, m.start())
+    arms = []
+    for lhs, rhs in match_arms(fn, r"self"):
+        mm = re.fullmatch(r"DataNumber::([A-Z0-9a-z]+)\(([a-z_]+)\)", lhs)
+        if not mm or mm.group(1) not in payload:
+            raise Unrecognised("DataNumber::to_be_bytes pattern %r" % lhs)
+        var, x = mm.group(1), mm.group(2)
+        r = _squash(rhs)
+        if r == "Ok(%s.to_be_bytes().to_vec())" % x and payload[var] in SCALAR_BYTES:
+            arms.append((var.lower(), ".native %d" % SCALAR_BYTES[payload[var]])); continue
+        a = re.fullmatch(r"\{letmutwtr=Vec::new\(\);wtr\.write_([ui])24::<BigEndian>\(\*%s\)\?;Ok\(wtr\)\}" % x, r)
+        if a and payload[var] == {"u": "u32", "i": "i32"}[a.group(1)]:
+            arms.append((var.lower(), ".writeU24" if a.group(1) == "u" else ".writeI24")); continue
+        raise Unrecognised("DataNumber::to_be_bytes arm %s: %r" % (lhs, r[:120]))
+    ub = find_impl(src, r"impl\s+From<DataNumber>\s+for\s+usize\s*\{")
+    casts = []
+    for lhs, rhs in match_arms(ub, r"val"):
+        mm = re.fullmatch(r"DataNumber::([A-Z0-9a-z]+)\(([a-z_]+)\)", lhs)
+        if not mm or mm.group(1) not in payload or _squash(rhs) != "%sasusize" % mm.group(2):
+            raise Unrecognised("From<DataNumber> for usize arm %r => %r" % (lhs, rhs))
+        casts.append(mm.group(1).lower())
+    if sorted(casts) != sorted(v.lower() for v in payload):
+        raise Unrecognised("From<DataNumber> for usize: arms %r" % casts)
+    return {"export": arms, "usizeCasts": sorted(casts)}
+
+
 def scan_globals():
     bad = []
     for root, _, files in os.walk(SRC):
@@ -561,6 +712,9 @@ def gen():
     attempt("v9field", f_fields(v9l, "V9Field"))
     attempt("ipfield", f_fields(ipl, "IPFixField"))
     attempt("dnArms", lambda: parse_dn_arms(dn))
+    attempt("valueArms", lambda: parse_value_arms(dn))
+    attempt("exportArms", lambda: parse_export_arms(dn))
+    attempt("dnExport", lambda: parse_dn_export_arms(dn))
 
     for key, src, name, nth in [
         ("v5Hdr", v5, "Header", 0), ("v5Rec", v5, "FlowSet", 0), ("v7Hdr", v7, "Header", 0), ("v7Rec", v7, "FlowSet", 0),
@@ -633,6 +787,7 @@ def emit(out):
     A = L.append
     A("/- GENERATED by tools/translate.py from the Rust source of /repo — do not edit. -/")
     A("import NetflowModel.Types")
+    A("import NetflowModel.Arms")
     A("namespace Netflow.Generated")
     A("open Netflow")
     A("")
@@ -680,6 +835,15 @@ def emit(out):
     A("def ipv4Fields : List String := %s" % lean_list(lean_str(x) for x in sorted(IPV4_FIELDS)))
     A("def scopeNames : List (Nat × String) := %s" % lean_list('(%d, "%s")' % (d, n) for n, d in sorted(out["scope"]["enum"].items(), key=lambda x: x[1])))
     A("def noGlobals : Bool := %s" % ("true" if not out["globals"] else "false"))
+    A("")
+    A("/-- arms of `FieldValue::from_field_type`, one per `FieldDataType` (data_number.rs) -/")
+    A("def valueArms : ValueArms := %s" % lean_list("(.%s, %s)" % (t, a) for t, a in out["valueArms"]))
+    A("/-- arms of `FieldValue::to_be_bytes` -/")
+    A("def exportArms : ExportArms := %s" % lean_list("(.%s, %s)" % (t, a) for t, a in out["exportArms"]))
+    A("/-- arms of `DataNumber::to_be_bytes` -/")
+    A("def dnExportArms : DnExportArms := %s" % lean_list("(.%s, %s)" % (t, a) for t, a in out["dnExport"]["export"]))
+    A("/-- variants whose `From<DataNumber> for usize` arm is the plain cast `i as usize` (all of them) -/")
+    A("def dnUsizeCasts : List DnArm := %s" % lean_list(".%s" % v for v in out["dnExport"]["usizeCasts"]))
     A("")
     A("def lookupD {β : Type} (tbl : List (Nat × β)) (d : β) (n : Nat) : β := (tbl.lookup n).getD d")
     A("")
